@@ -230,6 +230,14 @@ def match_tokens(toks, pattern, binds=None):
         if isinstance(p, str):
             if t[0] not in ("ident", "punct") or t[1] != p:
                 return None
+        elif p[0] == "var":
+            # an identifier the template may name freely, but consistently
+            if t[0] != "ident":
+                return None
+            key = "$" + p[1]
+            if key in binds and binds[key] != t[1]:
+                return None
+            binds[key] = t[1]
         elif p[0] == "hole":
             if t[0] != "hole":
                 return None
